@@ -947,11 +947,27 @@ class PE:
                 return ("b", v[1] == 1)
             if tail in ("unwrap", "expect") and v[1] == 0:
                 return v[2][0] if v[2] else UNK
+            if tail == "unwrap_or":
+                return (v[2][0] if v[2] else UNK) if v[1] == 0 else a(1)
+            if tail == "unwrap_or_else":
+                return (v[2][0] if v[2] else UNK) if v[1] == 0 else self._apply(env, f, (v[2][0] if v[2] else UNK,))
+            if tail == "map_or":
+                g = argvals[2] if len(argvals) > 2 else None
+                return self._apply(env, g, (v[2][0] if v[2] else UNK,)) if v[1] == 0 else a(1)
+            if tail == "map_or_else":
+                g = argvals[2] if len(argvals) > 2 else None
+                return self._apply(env, g if v[1] == 0 else f, (v[2][0] if v[2] else UNK,))
+            if tail == "is_ok_and":
+                return self._apply(env, f, (v[2][0] if v[2] else UNK,)) if v[1] == 0 else ("b", False)
             return UNK
         if is_opt:
             v = a(0)
             if v is None or v[0] != "adt" or v[1] not in (0, 1):
                 return UNK
+            if tail in ("as_ref", "as_mut", "as_deref"):
+                # &Option<T> -> Option<&T>: the same variant, its payload behind a reference (references to values are
+                # transparent here: arguments are read through them)
+                return ("adt", v[1], tuple(("rv", x) if x is not None else None for x in v[2]))
             f = argvals[1] if len(argvals) > 1 else None
             if tail == "is_some":
                 return ("b", v[1] == 1)
@@ -973,6 +989,22 @@ class PE:
                 return ("adt", 0, (v[2][0],)) if v[1] == 1 else ("adt", 1, (self._apply(env, f, ()),))
             if tail == "unwrap_or":
                 return v[2][0] if v[1] == 1 else a(1)
+            if tail == "unwrap_or_else":
+                return v[2][0] if v[1] == 1 else self._apply(env, f, ())
+            if tail == "map_or":
+                g = argvals[2] if len(argvals) > 2 else None
+                return self._apply(env, g, (v[2][0] if v[2] else UNK,)) if v[1] == 1 else a(1)
+            if tail == "map_or_else":
+                g = argvals[2] if len(argvals) > 2 else None
+                return self._apply(env, g, (v[2][0] if v[2] else UNK,)) if v[1] == 1 else self._apply(env, f, ())
+            if tail == "is_some_and":
+                if v[1] == 0:
+                    return ("b", False)
+                return self._apply(env, f, (v[2][0] if v[2] else UNK,))
+            if tail == "is_none_or":
+                if v[1] == 0:
+                    return ("b", True)
+                return self._apply(env, f, (v[2][0] if v[2] else UNK,))
             return UNK
         if tail == "new" and "RangeInclusive" in n:
             return ("adt", 0, (a(0), a(1)))
